@@ -68,6 +68,9 @@ def untouched_twin(dex, raw, t):
     """the same items of a second DEX object, located by position only: no accessor has been called on them before the first
     operation of the history (members are loaded lazily; a rename can be the first thing that happens to an item)"""
     d1, d2 = t.d, dex.DEX(raw)
+    if getattr(d1, "_vf_exported", False):
+        d2.create_python_export()
+        d2._vf_exported = True
 
     def pos(lst, o):
         return next(k for k, x in enumerate(lst) if x is o)
@@ -89,8 +92,11 @@ def untouched_twin(dex, raw, t):
     return Tracked(d2, items, cls=cls)
 
 
-def fresh_universe(dex, raw):
+def fresh_universe(dex, raw, export=False):
     d = dex.DEX(raw)
+    if export:                       # the interactive shell's attribute export (Session(export_ipython=True)): renames also maintain those attributes
+        d.create_python_export()
+        d._vf_exported = True
     cm = d.get_class_manager()
     mA = d.get_encoded_method_descriptor("La/A;", "foo", "()V")
     mB = d.get_encoded_method_descriptor("Lb/B;", "foo", "()V")
@@ -103,9 +109,12 @@ def fresh_universe(dex, raw):
     return Tracked(d, items)
 
 
-def shipped_universe(dex, raw, rnd):
+def shipped_universe(dex, raw, rnd, export=False):
     """tracked items of the shipped classes.dex: members sharing names, classes, const-strings equal to member names"""
     d = dex.DEX(raw)
+    if export:
+        d.create_python_export()
+        d._vf_exported = True
     by_name = {}
     for m in d.get_encoded_methods():
         if not m.get_name().startswith("<"):
@@ -157,7 +166,7 @@ def run(chk):
     recs, starts, want_final = [], [], []
     sid = None
     for k, st in enumerate(leaves):
-        t = fresh_universe(dex, raw)
+        t = fresh_universe(dex, raw, export=(k % 3 == 2))
         if k % 2:
             t = untouched_twin(dex, raw, t)
         starts.append(len(recs))
@@ -178,7 +187,7 @@ def run(chk):
     # C->S: long random histories on the generated universe and on the shipped classes.dex
     shipped = open("/repo/tests/data/APK/classes.dex", "rb").read()
     for h in range(30 if quick else 600):
-        t = fresh_universe(dex, raw) if h % 2 == 0 else shipped_universe(dex, shipped, rnd)
+        t = fresh_universe(dex, raw, export=(h % 3 == 1)) if h % 2 == 0 else shipped_universe(dex, shipped, rnd, export=(h % 3 == 1))
         if h % 4 >= 2:
             t = untouched_twin(dex, raw if h % 2 == 0 else shipped, t)
         starts.append(len(recs))
